@@ -306,11 +306,13 @@ def run_C10(ctx, proof_ok):
     n2, d2 = combc.compare_nesting(r, E, budget(ctx.tier, 250, 5000))
     import c09
     n3, d3 = c09.nested_program_history(lib.rng(1011), E, budget(ctx.tier, 60, 1200))
-    ctx.violations.extend(d1 + d2 + d3)
+    n4, d4 = combc.compare_arraytuple(lib.rng(1012), budget(ctx.tier, 600, 12000))
+    ctx.violations.extend(d1 + d2 + d3 + d4)
     ctx.violations.extend(combc.probe_F7(E))
-    n2 = n2 + n3
+    n2 = n2 + n3 + n4
     return {"evaluations": n1 + n2, "distinct_nontrivial": dist["with_decl"] + n2,
-            "rule": "combine: random chains (2-4) of operators `@` accepts (E.., P.., R.., T.., Phi.., T mixed with E), parameters "
+            "rule": "common.ArrayTuple (+, +=, *, *=, scalar forms, unary minus; None parts; ints, 0-d and 1-d arrays) vs the Lean "
+                    "definitions ATuple.* (Props/C10Tuple.lean) || combine: random chains (2-4) of operators `@` accepts (E.., P.., R.., T.., Phi.., T mixed with E), parameters "
                     "scalar or arrays over batch shapes (), (2,), (3,), (2,1), (1,3), (2,3), identity-named declarations first "
                     "order / first+second order, left and right association, input state with or without foreign partials; "
                     "(a@b)(sm) vs b(a(sm)) on states, order1, order2, shape, duration || nesting: the same operator objects "
@@ -1236,7 +1238,7 @@ EXTRA_MODULES = {
     "C07": ["EpgVerif.Tie.ApplySites", "EpgVerif.Props.C07Axes"],
     "C08": ["EpgVerif.Tie.ApplySites", "EpgVerif.Tie.ShiftSites", "EpgVerif.Props.C04", "EpgVerif.Props.C13Cap", "EpgVerif.Props.C08Merge"],
     "C09": ["EpgVerif.Tie.PuritySites"],
-    "C10": ["EpgVerif.Tie.ApplySites", "EpgVerif.Props.C10Second"],
+    "C10": ["EpgVerif.Tie.ApplySites", "EpgVerif.Props.C10Second", "EpgVerif.Props.C10Tuple"],
     "C11": ["EpgVerif.Tie.SeqSites", "EpgVerif.Props.C11Run", "EpgVerif.Props.C11Bind"],
     "C12": ["EpgVerif.Tie.SimSites", "EpgVerif.Tie.Modify"],
     "C13": ["EpgVerif.Tie.ShiftSites", "EpgVerif.Props.C13Prune", "EpgVerif.Props.C13Cap"],
